@@ -1,6 +1,7 @@
 package main
 
 import (
+	"context"
 	"fmt"
 
 	"github.com/jig/lisp/types"
@@ -212,8 +213,36 @@ func runC13(tier string, seed uint64, rep *Report) {
 			return Call("get", comp(d-1), r.Pick([]string{Kw("a"), Kw("b")}))
 		}
 	}
+	// a composition may BUILD a set of several members (assoc / conj on a set) and then hand it to vec / seq, whose result
+	// follows Go's map iteration order: such compositions are left out (the sub-expression is evaluated to find out)
+	var orderDependent func(v types.MalType) bool
+	orderDependent = func(v types.MalType) bool {
+		l, ok := v.(types.List)
+		if !ok || len(l.Val) == 0 {
+			return false
+		}
+		for _, e := range l.Val[1:] {
+			if orderDependent(e) {
+				return true
+			}
+		}
+		if h, ok := l.Val[0].(types.Symbol); ok && (h.Val == "vec" || h.Val == "seq") && len(l.Val) == 2 {
+			w, _ := NewWorld()
+			if o := w.Eval(context.Background(), l.Val[1]); o.Err == nil && o.Panic == nil {
+				if _, isSet := o.Val.(types.Set); isSet && multi(o.Val) {
+					return true
+				}
+			}
+		}
+		return false
+	}
 	for i := 0; i < n; i++ {
-		addProgram(rep, comp(1+r.Intn(depth)), true, "composition")
+		c := comp(1 + r.Intn(depth))
+		if orderDependent(c) {
+			rep.Histogram["composition-skipped:vec/seq-of-a-multi-member-set"]++
+			continue
+		}
+		addProgram(rep, c, true, "composition")
 	}
 	// (iii) laws (direct oracle)
 	law := func(name string, prog types.MalType) {
